@@ -57,7 +57,7 @@ PROPS = {
              "a 19-clause invariant is inductive; wedge_shapes: in every reachable state with an open manager in which something is owed and neither the library nor a well-behaved environment can move, the state has "
              "one of exactly two shapes (stale-broken, stream back-pressure) — a complete list; both shapes are stuck and both are reachable (explicit traces checked by the kernel): the two known findings; requests written to a stream that has died are never forgotten "
              "(lost_is_cancelled, parked_means_nothing_lost: whoever replaces a stream answers them first), whereas the pinned code reaches a quiet state with a request lost for good (pinned_leak_reachable). "
-             "Tie: isConnected, the give-up test and the three facts of the stream replacement (cancel under the write lock before the new stream, mark before SendMsg, unmarked requests skipped) regenerated from channel.go; digests of the twelve functions the LTS was written from; engine wedge: workload phases with cancellations, slow quorum functions and handlers, "
+             "Tie: the table of every lock acquisition, blocking operation and intra-package call with the locks held there (lock-set walk by gx, regenerated on every run): the lock order computed from it is exactly streamMut → responseMut, streamMut → mu and acyclic (lockOrder_good, lockOrder_acyclic), and every place where the tree can block while holding a lock is a step of ConnMgr / NodeConn / SrvConn (blocking_sites_modelled: the wedge analysis is complete with respect to the code's blocking sites). Further tie: isConnected, the give-up test and the three facts of the stream replacement (cancel under the write lock before the new stream, mark before SendMsg, unmarked requests skipped) regenerated from channel.go; digests of the twelve functions the LTS was written from; engine wedge: workload phases with cancellations, slow quorum functions and handlers, "
              "restarts, then a probe RPC per node; every hang is classified by goroutine signature; two deliberate replays reproduce the known findings; a burst of calls made with an already-ended context on healthy idle nodes "
              "(no stream fails there, so any node that stops answering is a violation whatever the shape).",
         note="Partial: relative to the model's list of shapes; real scheduling is not modelled; a new way to get stuck that is not in the LTS is caught by the digests and by an unknown signature in engine wedge.",
@@ -66,14 +66,14 @@ PROPS = {
         level="proof", engines=[eng("reconn", 40, 800, timeout=1500)], labels=["C10"],
         text="Partial. Theorems (Props/C10.lean): connect() is retried for every request popped while the node is not connected; with a reachable peer a node stays unusable only in the two wedges of C09; "
              "the no-timer clause is refuted on the model (timer_wait_reachable: a reply on a live stream while the receiver sleeps in its back-off — the known finding) and holds outside that state (no_timer_wait_partial). "
-             "Tie: connection decisions regenerated; digests of connect / reconnect / newNodeStream / receiver / sender / newChannel / newContext / dial / NodeStream; engine reconn: nodes down at creation, stop/start rounds, "
+             "Tie: connection decisions regenerated; the manager's back-off configuration reaches both the channel's reconnect loop and gRPC's re-dialling (backoff_forwarded_good, read from NewRawManager / newChannel); digests of connect / reconnect / newNodeStream / receiver / sender / newChannel / newContext / dial / NodeStream; engine reconn: nodes down at creation, stop/start rounds, "
              "back-off base 1.5 s vs 30 ms, lag between 'handler replied' and 'call returned', an RPC whose request the restarted server handled must not fail, general and per-node metadata and exactly one connect callback on every accepted stream.",
         note="Partial: timers are abstract (a timer wait is recognised at runtime by a lag above 1 s with a 1.5 s base delay).",
     ),
     "C12": dict(
         level="proof", engines=[eng("close", 20, 400, timeout=1500)], labels=["C12"],
         text="Partial. Theorems (Props/C12.lean): after Close, a state in which nothing can move has both goroutines exited (unless the receiver is blocked in the back-pressure wedge); no stream is alive and no request is "
-             "accepted after Close; the exiting sender leaves no request in the queue and the exiting receiver no request unanswered; hence after Close, at rest, nothing is owed — no caller is stranded — outside the back-pressure wedge (closed_rest_owes_nothing). Tie: send-queue capacity regenerated; digests of Close / closeNodeConns / RawNode.close / connect / enqueue / sender / receiver / reconnect / "
+             "accepted after Close; the exiting sender leaves no request in the queue and the exiting receiver no request unanswered; hence after Close, at rest, nothing is owed — no caller is stranded — outside the back-pressure wedge (closed_rest_owes_nothing). Connections (model NodeConn of RawNode.dial / close, Props/NodeConnP.lean): a node has at most one live connection, the current one; once close has run none is live, no dial is in progress and none can be created again; close is idempotent; each of the four facts this rests on is needed (needs_closesOld, needs_checksClosed, needs_lockedDial, needs_closeCloses). Tie: send-queue capacity regenerated; the four facts of dial / close (connMu held throughout dial, refusal after close, the replaced connection is closed, close sets the flag and closes under connMu) and 'Manager.Close reaches every node once' read from node.go / mgr.go (nodeConn_good, mgrClose_good); digests of Close / closeNodeConns / RawNode.close / connect / enqueue / sender / receiver / reconnect / "
              "Multicast / Unicast; engine close: send buffer {0,1,8} x node states x in-flight calls of all types x Close once / twice / concurrently: every in-flight call returns within 3 s, calls after Close fail fast "
              "without panic, client-side library goroutines and the goroutines of the gRPC client connections are gone.",
         note="Partial: goroutine exit and socket closure are observed at runtime, not proved.",
@@ -113,7 +113,7 @@ PROPS = {
         level="proof", engines=[eng("order", 300, 6000, timeout=900), eng("srv", 300, 6000, timeout=900)], labels=["C03", "C04"],
         text="Theorems (Props/C03.lean, composing Chan and SrvConn): what is written to a node's stream is, in order, a subsequence of what was handed to its send queue, each request at most once; "
              "the queue is FIFO (popped is a prefix of pushed); the server starts handlers in receive order, once each; hence over one connection the start order is a duplicate-free subsequence of "
-             "the hand-off order and no request overtakes another (start_order, no_overtaking). Tie: plain hand-off statements in all per-node loops and the send-queue capacity regenerated from the tree; "
+             "the hand-off order and no request overtakes another (start_order, no_overtaking). Inside the composite system Net the stream contract that start_order assumes is itself a theorem, also across lost writes and dead streams: handlers started on the current connection followed by the requests in transit are a subsequence of what the sender wrote (net_stream_contract, net_start_order). Tie: plain hand-off statements in all per-node loops and the send-queue capacity regenerated from the tree; "
              "digests of enqueue/sender/sendMsg/newChannel/NodeStream and of the six issuing functions; engine order runs mixed-call programs with stragglers, send buffers {0,1,4,64}, large payloads and "
              "explicit releases and lets the Lean model judge every node's start order; engine srv checks per-connection traces.",
         note="Trusted: Lean kernel; gRPC delivers a stream's messages in order at most once; Go channels are FIFO; happens-before between two calls implies the first call's hand-offs completed before the second's "
@@ -123,7 +123,7 @@ PROPS = {
         level="proof", engines=[eng("xtalk", 4000, 100000, timeout=900), eng("qc", 1500, 30000)], labels=["C05"],
         text="Theorems (Props/C05.lean) over the node-channel LTS Chan (router table, send queue, sender, receiver, stream-down, deferred deletion), invariant proved inductive over all label sequences: "
              "every delivery goes to the call that registered the id (ids registered at most once); at most one delivery per non-streaming request; a reply without router is dropped and changes nothing; "
-             "stream-down answers every pending request with an error; an error is the last thing delivered for a request. Tie: deletion guards regenerated from routeResponse / cancelPendingMsgs; digests of the router functions, getMsgID (one counter per manager), "
+             "stream-down answers every pending request with an error; an error is the last thing delivered for a request. End to end, over the composite system Net: every node's channel is a reachable Chan state and every server connection a reachable SrvConn state (chan_reachable, srv_reachable), calls never share an id (ids_unique), a call addresses a node at most once (issue_unique), and a reply that node n's channel delivers to a call is what n's handler computed from the payload that call addressed to n (provenance; echo_needed: a server answering under another id hands a call the answer to another call's request). the facts Net takes as given — one id per call from the manager-wide counter, the server answers under the request's own id, every answer names the channel's own node — are read from the tree on every run (net_ids_good, net_echo_good, net_nid_good). Tie: deletion guards regenerated from routeResponse / cancelPendingMsgs; digests of the router functions, getMsgID (one counter per manager), "
              "WrapMessage and all issuing functions; engine xtalk (8..32 goroutines, overlapping configurations, late replies, mixed RPC/quorum/async/correctable/one-way) checks the (call, node) stamp of every "
              "reply-set entry and result; engine qc checks stamps under gating.",
         note="Trusted: Lean kernel; the hand-written LTS; 'message ids are fresh' is a precondition of the register step (justified by the digest of the manager-wide atomic counter, 64 bit, assumed not to wrap); "
@@ -152,18 +152,18 @@ PROPS = {
         level="proof", engines=[eng("qc", 3000, 60000), eng("xtalk", 2000, 60000)], labels=["C01", "C05"],
         text="Theorems (Props/C01.lean): success returns exactly the value the quorum function returned with 'quorum' on its last invocation; every earlier invocation said 'no quorum'; "
              "the invocation log is exactly the list of cumulative reply sets of the consumed prefixes that end in a reply (one invocation per newly arrived successful reply, in order); "
-             "every entry is a reply arrival (never a failed node), one entry per node, sets only grow; the async loop invokes QF like the sync one. Tie: loop parameters (Tie/C02), error guard "
+             "every entry is a reply arrival (never a failed node), one entry per node, sets only grow; the async loop invokes QF like the sync one. End to end, over the composite system Net (manager counter, calls, per node: channel + stream + server connection + handlers; Props/Net.lean, Props/NetCall.lean): every entry (n, v) of every reply set shown to the quorum function is what node n's handler computed from the payload this very call addressed to n (qf_sees_only_genuine, from provenance); the facts Net takes as given — one id per call from the manager-wide counter, the server answers under the request's own id, every answer names the channel's own node — are read from the tree on every run (net_ids_good, net_echo_good, net_nid_good). Tie: loop parameters (Tie/C02), error guard "
              "and reply-channel capacity regenerated from the tree; digests of the loops, Async accessors and the four client templates; exact differential run of all 13 variants with gated and "
              "burst arrivals: QF invocation log, request identity, overlap counter, provenance stamps (call, node) in every entry; engine xtalk checks the same stamps under concurrency "
              "(8..32 goroutines, overlapping configurations, late replies).",
-        note="Trusted: Lean kernel; gx; the loop model. Provenance (each entry is what that node's handler produced for this call's request) is a statement about routing (C05); here it is "
-             "checked on the real code by the stamps the puppet handlers put into replies, not proved.",
+        note="Trusted: Lean kernel; gx; the loop model. Provenance (each entry is what that node's handler produced for this call's request) is proved over the composite model Net and "
+             "additionally checked on the real code by the stamps the puppet handlers put into replies; Net abstracts gRPC to an ordered lossy stream per connection and the payload to a number.",
     ),
     "C06": dict(
         level="proof", engines=[eng("oneway", 1500, 30000), eng("qc", 1500, 20000)], labels=["C06"],
         text="Theorems (Props/C06.lean): without a per-node function every node is targeted with the caller's request; with f, node i is targeted with exactly f(request, i) and nodes for which f "
              "yields nothing are not targeted; targets are issued once each, in configuration order; the expected-replies counter equals the number of targets; the multicast wait loop returns "
-             "exactly when every sent message is confirmed, at once with no-send-waiting. Tie: skip test, counter decrement, plain hand-off statements, wait-loop condition and waitForSend "
+             "exactly when every sent message is confirmed, at once with no-send-waiting. End to end (Net): the payload a handler runs with on node n is the payload of the one request with that id that some call addressed to n (server_receives_own_payload, handler_payload_is_addressed). Tie: skip test, counter decrement, plain hand-off statements, wait-loop condition and waitForSend "
              "regenerated from the four per-node loops and channel.go; digests; engines oneway (blocked handlers: return without waiting, payload and count per node; plus a back-to-back run of send-waiting calls whose context is cancelled the moment the call has returned: every message delivered exactly once, no call waits) and qc (payloads of quorum calls).",
         note="Trusted: Lean kernel; gx; 'without waiting for the connection' is observed with a generous bound on an otherwise idle channel; HTTP/2 flow control behind a blocked handler is transport behaviour outside the model.",
     ),
@@ -181,9 +181,9 @@ PROPS = {
         text="Theorems (Props/C11.lean): the object starts at LevelNotSet with no reply; the watcher invariant (closed iff level reached or completed) is preserved by Watch at any "
              "moment and by every publication; the loop never calls set on a completed object; published levels never decrease; only the last snapshot can be completed (done is final); "
              "a strictly higher level is published at once with the quorum function's value and releases the watchers at or below it; done publishes QF's value, releases everything; "
-             "context end / exhaustion (also zero targets; streams: all failed) complete with the right error; every stored reply is a QF value, so the typed accessors never panic; 'every node has failed' counts nodes, not errors: a node answers a request with at most one error (Chan: at_most_one_error, the repair of D18), and then the stream arm of the exhaustion test holds exactly when every targeted node has failed (stream_exhausted_iff_all_failed; pinned_double_error_completes shows the count alone says nothing). "
+             "context end / exhaustion (also zero targets; streams: all failed) complete with the right error; every stored reply is a QF value, so the typed accessors never panic; Watch (test and registration) and set are single steps: each runs in one exclusive critical section (atomic_good, read from the tree); 'every node has failed' counts nodes, not errors: a node answers a request with at most one error (Chan: at_most_one_error, the repair of D18), and then the stream arm of the exhaustion test holds exactly when every targeted node has failed (stream_exhausted_iff_all_failed; pinned_double_error_completes shows the count alone says nothing). "
              "Tie (Tie/C11.lean): initial level, both exhaustion arms and their position, both watcher comparisons and the publication structure of the reply case are regenerated from "
-             "correctable.go on every run; digests; exact differential run of all 12 correctable variants (gated arrivals, crashes of a node's server during a stream, snapshots of raw/typed Get, Done and every Watch channel after every arrival).",
+             "correctable.go on every run; digests; exact differential run of all 12 correctable variants (gated arrivals, crashes of a node's server during a stream, snapshots of raw/typed Get, Done and every Watch channel after every arrival) plus a Watch-versus-publication workload (goroutines calling Watch(l) at the instant set publishes l or completes: once both have returned every channel is closed).",
         note="Trusted: Lean kernel; gx; the hand-written loop/object model (tied by T1 facts, digests and the exact T3 run). Not observable without instrumentation: the order in which two "
              "error arrivals that do not change the published state are consumed (error lists are compared as sets) and, for streams, whether an error arrival was consumed before the context ended.",
     ),
@@ -194,7 +194,7 @@ PROPS = {
              "WithNodeIDs exactly the named registered nodes or an error; a node list yields one node per distinct address carrying that address, an address whose generated ID is "
              "pooled under another address fails (the FNV-1a collision 10.0.1.16:5319 / 10.0.2.47:8124 is a kernel-checked fact); a node map realises every (address, id) pair or fails. "
              "Tie: digests of the 25 constructor / accessor functions (config_opts.go, config.go, mgr.go, node.go, dev/mgr.go, dev/config.go) regenerated on every run; "
-             "exact differential run of operation sequences (raw API and generated dev.Manager) against the Lean model, with every live configuration re-dumped after every operation.",
+             "exact differential run of operation sequences (raw API and generated dev.Manager; IPv4, IPv6 and zoned link-local IPv6 literals) against the Lean model, with every live configuration re-dumped after every operation.",
         note="Trusted: Lean kernel; net.ResolveTCPAddr is the identity on canonical ip:port literals; pointer identity is modelled by a uid; sort.Sort on distinct IDs; "
              "the hand-written constructor model (tied by digests and by the exact T3 run).",
     ),
@@ -224,7 +224,7 @@ PROPS = {
              "is errs+replies = expected, is evaluated before the first select, and its branch reports the context's error once the context has ended) Incomplete adds up, zero targets terminate at once, "
              "a context that has ended when every node has answered yields the context's error (exhaustion_outcome), the future completes by the same rule. "
              "Tie: exhaustion expressions, their position and the cause they report regenerated from quorumcall.go/async.go on every run; errors.Is decision regenerated from errors.go; "
-             "exact differential run of all 13 zorums quorum-call variants with gated arrival orders against the Lean driver.",
+             "exact differential run of all 13 zorums quorum-call variants with gated arrival orders against the Lean driver. Every other context of the engines is cancelled with a cause (context.WithCancelCause), so that context.Cause(ctx) differs from ctx.Err(): the call must report ctx.Err().",
         note="Trusted: Lean kernel; gx's translation of the two exhaustion tests, their position and QuorumCallError.Is; the hand-written loop model (tied by digest of the loop functions and the exact T3 run); "
              "gating harness. The harness ends a context only before the call or after the arrival before it has been consumed (Driver/QC.lean runCase states this schedule); after a context has ended, which of the locally produced answers the loop still consumes is not constrained, so the error list of a context outcome is compared on the nodes whose failure was delivered before the cancellation.",
     ),
